@@ -10,6 +10,7 @@ import (
 	"os"
 	"sort"
 	"strings"
+	"sync/atomic"
 	"testing"
 	"time"
 
@@ -17,6 +18,7 @@ import (
 	_ "verifsim/hook"
 	"verifsim/kernel"
 	_ "verifsim/props/all"
+	"verifsim/props/common"
 )
 
 type cmd struct {
@@ -83,6 +85,8 @@ func TestWorker(t *testing.T) {
 		journal, _ = os.Create(jp)
 	}
 	races := newRaceLog(os.Getenv("VERIF_RACELOG"))
+	hangOut = o
+	go watchdog()
 	in := bufio.NewScanner(os.Stdin)
 	in.Buffer(make([]byte, 1<<20), 64<<20)
 	for in.Scan() {
@@ -124,7 +128,38 @@ func TestWorker(t *testing.T) {
 	}
 }
 
+// progress is bumped around every run; the watchdog goroutine ends the
+// process when a run makes no progress in real time (a library lock that is
+// never released blocks the bubble for good: synctest cannot see through a
+// sync.Mutex).
+var (
+	progress  atomic.Int64
+	inRun     atomic.Bool
+	curSeed   atomic.Uint64
+	hangOut   *out
+	hangLimit = 25 * time.Second
+)
+
+func watchdog() {
+	last, since := int64(-1), time.Now()
+	for {
+		time.Sleep(500 * time.Millisecond)
+		p := progress.Load()
+		if p != last || !inRun.Load() {
+			last, since = p, time.Now()
+			continue
+		}
+		if time.Since(since) > hangLimit && hangOut != nil {
+			hangOut.emit(map[string]any{"kind": "hang", "seed": curSeed.Load(), "stacks": common.BubbleStacksAll()})
+			os.Exit(3)
+		}
+	}
+}
+
 func runOne(t *testing.T, p *core.Prop, sc any, verbose bool, races *raceLog) *core.Result {
+	inRun.Store(true)
+	progress.Add(1)
+	defer func() { progress.Add(1); inRun.Store(false) }()
 	before := kernel.RaceErrors()
 	res := p.Run(t, sc, verbose)
 	if kernel.RaceErrors() != before {
@@ -162,6 +197,7 @@ func runRange(t *testing.T, p *core.Prop, c *cmd, o *out, journal *os.File, race
 			journal.WriteAt(jb[:], 0)
 		}
 		sc := p.Gen(seed, c.Tier)
+		curSeed.Store(seed)
 		res := runOne(t, p, sc, false, races)
 		agg.Runs++
 		agg.LastIdx = idx
